@@ -42,7 +42,7 @@ def main():
     except common.HarnessError as e:
         print("HARNESS-ERROR", str(e)[:2000])
         return 2
-    except Exception:  # noqa: BLE001
+    except BaseException:  # noqa: BLE001  (tawazi's exceptions derive from BaseException)
         traceback.print_exc()
         return 2
 
